@@ -26,12 +26,30 @@ func TestMain(m *testing.M) {
 	vstat.Main(m.Run)
 }
 
+// srcHeader is the request header that identifies the source in the current case, and
+// srcSpelling how the configuration spells it (header names are case-insensitive).
+var srcHeader, srcSpelling = "X-Src", "X-Src"
+
+// verboseLimiter: the limiter of the current case runs in verbose mode with a formatting logger.
+var verboseLimiter bool
+
+type fmtLogger struct{}
+
+func (fmtLogger) Debug(f string, a ...interface{}) { _ = fmt.Sprintf(f, a...) }
+func (fmtLogger) Info(f string, a ...interface{})  { _ = fmt.Sprintf(f, a...) }
+func (fmtLogger) Warn(f string, a ...interface{})  { _ = fmt.Sprintf(f, a...) }
+func (fmtLogger) Error(f string, a ...interface{}) { _ = fmt.Sprintf(f, a...) }
+
 func newLimiter(t interface{ Fatalf(string, ...any) }, next http.Handler, limit int64) *connlimit.ConnLimiter {
-	ex, err := utils.NewExtractor("request.header.X-Src")
+	ex, err := utils.NewExtractor("request.header." + srcSpelling)
 	if err != nil {
 		t.Fatalf("NewExtractor: %v", err)
 	}
-	cl, err := connlimit.New(next, ex, limit)
+	var opts []connlimit.Option
+	if verboseLimiter {
+		opts = append(opts, connlimit.Verbose(true), connlimit.Logger(fmtLogger{}))
+	}
+	cl, err := connlimit.New(next, ex, limit, opts...)
 	if err != nil {
 		t.Fatalf("connlimit.New: %v", err)
 	}
@@ -42,6 +60,12 @@ func TestC04_Schedules(t *testing.T) {
 	rapid.Check(t, func(t *rapid.T) {
 		limit := rapid.IntRange(0, 4).Draw(t, "limit")
 		srcs := []string{"a", "b", "c"}
+		// the identifying header may be a credential header, and the configuration may spell the
+		// name in any case; a third of the limiters log verbosely
+		hs := rapid.SampledFrom([][2]string{{"X-Src", "X-Src"}, {"X-Src", "x-src"}, {"X-Src", "X-SRC"}, {"Authorization", "Authorization"}, {"X-Api-Key", "X-API-Key"}, {"Cookie", "Cookie"}}).Draw(t, "sourceHeader")
+		srcHeader, srcSpelling = hs[0], hs[1]
+		verboseLimiter = rapid.IntRange(0, 2).Draw(t, "verbose") == 0
+		defer func() { srcHeader, srcSpelling, verboseLimiter = "X-Src", "X-Src", false }()
 		var mu sync.Mutex
 		inside := map[string]int{}
 		maxInside := 0
@@ -53,7 +77,7 @@ func TestC04_Schedules(t *testing.T) {
 		}
 		gate.OnEnter = func(c *sim.Call, r *http.Request) {
 			mu.Lock()
-			k := strings.TrimPrefix(r.Header.Get("X-Src"), longPrefix)
+			k := strings.TrimPrefix(r.Header.Get(srcHeader), longPrefix)
 			inside[k]++
 			if inside[k] > maxInside {
 				maxInside = inside[k]
@@ -107,7 +131,7 @@ func TestC04_Schedules(t *testing.T) {
 		start := func(src string, mustAdmit, mustReject bool) {
 			ctx, cancel := context.WithCancel(context.Background())
 			req := httptest.NewRequest("GET", "http://x/", nil).WithContext(ctx)
-			req.Header.Set("X-Src", longPrefix+src)
+			req.Header.Set(srcHeader, longPrefix+src)
 			unidentifiable := false
 			if byIP {
 				req.RemoteAddr = ipOf[src] + ":" + fmt.Sprint(rapid.IntRange(1024, 65535).Draw(t, "port"))
@@ -161,6 +185,17 @@ func TestC04_Schedules(t *testing.T) {
 				inflight = append(inflight, fl{c, src, grp, cancel})
 				return
 			}
+			if rapid.IntRange(0, 2).Draw(t, "resubmitSameRequest") == 0 && !byIP {
+				// a retrying front handler hands the very same request object in again: nothing has
+				// changed, the source is still at its limit
+				c2, err := gate.Start(cl, req)
+				if err != nil {
+					t.Fatalf("%v", err)
+				}
+				if c2.Entered {
+					t.Fatalf("limit %d: a request of source %s refused with %d was handed in again unchanged and admitted (its source header now reads %q)\nschedule: %s", limit, tag, c.Rec.Status(), req.Header.Get(srcHeader), strings.Join(log, " "))
+				}
+			}
 			cancel()
 			log = append(log, fmt.Sprintf("start(%s)=%d", tag, c.Rec.Status()))
 			rejections++
@@ -183,11 +218,11 @@ func TestC04_Schedules(t *testing.T) {
 			o := sim.Outcome{Status: 200, Panic: panic}
 			switch rapid.IntRange(0, 5).Draw(t, "scrub") {
 			case 0: // the handler scrubs the identifying header before returning
-				o.Mutate = func(r *http.Request) { r.Header.Del("X-Src") }
+				o.Mutate = func(r *http.Request) { r.Header.Del(srcHeader) }
 				mutations++
 			case 1: // ... or rewrites it to another source's value
 				other := rapid.SampledFrom(srcs).Draw(t, "rewriteTo")
-				o.Mutate = func(r *http.Request) { r.Header.Set("X-Src", longPrefix+other); r.Header.Del("X-Grp") }
+				o.Mutate = func(r *http.Request) { r.Header.Set(srcHeader, longPrefix+other); r.Header.Del("X-Grp") }
 				mutations++
 			}
 			if err := f.c.Finish(o); err != nil {
